@@ -39,6 +39,7 @@ type Character rune
 
 // ReadCharacter read a character from bytes that would follow #\.
 func ReadCharacter(src []byte) (c Character) {
+	var nul bool
 	switch len(src) {
 	case 0:
 		ParsePanic(NewScope(), 0, `'#\' is not a valid character`)
@@ -59,6 +60,8 @@ func ReadCharacter(src []byte) (c Character) {
 			}
 			if rn <= unicode.MaxRune {
 				c = Character(rn)
+				// The null character is written as #\u0000.
+				nul = rn == 0 && 4 < len(src)
 			}
 			break
 		}
@@ -66,7 +69,7 @@ func ReadCharacter(src []byte) (c Character) {
 			c = Character(rn)
 		}
 	}
-	if c == 0 {
+	if c == 0 && !nul {
 		ParsePanic(NewScope(), 0, `'#\%s' is not a valid character`, src)
 	}
 	return
